@@ -182,9 +182,17 @@ CFG = dict(
                "null rank (option R, from the C12 characterisation: vrank is a map of a function of the valid elements); the "
                "option view of vpartition is a function of the non-null elements only, hence unchanged by null insertion "
                "(every carrier, T::none() a null). "
-               "Still partial: rank transparency at a generic carrier (the length-1 early return writes the literal 1.0 where "
-               "the loop computes 1 as f64 [/ 1 as f64]: needs laws of the numeric class); the index law at binary64 is not "
-               "proved in Coq (monotone rounding), so at binary64 quantile transparency is the `Ok r` form. Tied to the "
+               "Extension X28 (Proofs/RankTransparent.v, axiom-free): rank transparency is now proved at a GENERIC carrier - "
+               "every Num A, every null dictionary with an arbitrary `==`, no order law on two non-null values - under the single "
+               "law 1 as f64 / 1 as f64 = 1.0 (which reconciles the literal 1.0 of the length-1 early return with the loop), "
+               "proved to hold at Z, option R and binary64 (by computation: no float axiom) and proved necessary (a carrier "
+               "where it fails and transparency fails): the argsort of a series is the re-indexed argsort of its valid elements "
+               "followed by the null positions; the run-length loops on the series and on its valid elements take the same "
+               "branches along the position embedding; vrank ys = the ranks of the valid elements scattered back to the valid "
+               "slots, NaN at the null slots; hence vrank (insert_pat nl p xs) = insert_pat (Some NaN) p (vrank xs) for every "
+               "pattern (the recorded full statement), for the inductive NullInsert, composed with re-encoding, and outright at "
+               "binary64 for every dictionary over f64. "
+               "Still partial: varg_partition / arg-extrema under null insertion are positional (not claimed). Tied to the "
                "code by relational runs of the public API under every encoding and every insertion pattern, plus the model tie.",
     level_note="Trusted: Coq kernel (the C08 theorems are axiom-free except the quantile / rank corollaries stated over option R); the "
                "hand-written models of C01/C03/C04/C11/C12/C13/C15 reused here; canonical nulls only (DESIGN 5.4); the comparator's "
